@@ -17,6 +17,7 @@ Decided:
     driver object (take / = None) only after the device was told to detach it, on every path - including the paths on
     which a device-written response makes a teardown command fail (C20.Z4; GPU driver; configurations with `alloc`).
  T7 device-advertised window lengths bound every configuration access (C13.G1/G5 tables).
+ T9 net receive claims the slot of the completed id before consuming the completion (C16.S4 custody rules).
  T8 a completion poll the device makes fail frees nothing that is still posted (C04.P8).
 Not decided: absence of panics (the property allows clean panics); arbitrary callers of the unsafe queue API.
 """
@@ -107,6 +108,11 @@ def run(F, R):
     # T8: a completion poll the device makes fail (wrong / repeated id, nothing ready) frees nothing that is still posted
     from .C04 import p8_release_after_completion
     p8_release_after_completion(F, RuleProxy(R, {'P8': 'T8'}), M)
+    # T9: the net driver's in-flight record (the slot of the token) is claimed before the completion is consumed and
+    # checked against the recorded index (C16.S4 custody)
+    from .C16 import s4_custody
+    from . import C05 as _c5
+    s4_custody(F, R, M, _c5.classify_api(_c5.queue_api(F, M)), rule='T9', only=('receive', 'recycle_rx_buffer'))
     if 'device::gpu::VirtIOGpu' in F.adts:
         from . import C05 as _c5
         from .C20 import z3_z4_gpu
